@@ -14,7 +14,7 @@ import (
 
 func init() {
 	registerEngine("MP", []string{"M1", "P1", "P2"}, runEngineMP)
-	registerEngine("Q", []string{"Q1", "Q2", "Q3"}, runEngineQ)
+	registerEngine("Q", []string{"Q1", "Q2", "Q3", "Q4"}, runEngineQ)
 	registerEngine("S", []string{"S1", "S2", "S3", "S4"}, runEngineS)
 }
 
@@ -186,7 +186,7 @@ func runEngineMP(p *Prog, o *obls) {
 		// (a) the writer closure of the owner calls fn exactly once before the forward, with its own header/payload
 		found := false
 		for _, c := range closures {
-			if c.Kind != RTPWriter || closureOwnerType(c.Fn) != cs.closureOwner {
+			if c.Kind != RTPWriter || closureOwnerType(c.ownerFn()) != cs.closureOwner {
 				continue
 			}
 			found = true
@@ -281,7 +281,7 @@ type queueSpec struct {
 
 var queueSpecs = []queueSpec{
 	{"pkg/gcc.LeakyBucketPacer", "pkg/gcc.LeakyBucketPacer.queue", "pkg/gcc.(*LeakyBucketPacer).Run", "pkg/gcc.(*LeakyBucketPacer).Write", ""},
-	{"pkg/pacing.Interceptor", "", "pkg/pacing.(*Interceptor).loop", "pkg/pacing.(*Interceptor).BindLocalStream$1", "pkg/pacing.Interceptor.limit"},
+	{"pkg/pacing.Interceptor", "", "pkg/pacing.(*Interceptor).loop", "pkg/pacing.(*Interceptor).BindLocalStream$RTPWriter", "pkg/pacing.Interceptor.limit"},
 	{"fixtures/fx.GoodQ", "fixtures/fx.GoodQ.q", "fixtures/fx.(*GoodQ).run", "fixtures/fx.(*GoodQ).Write", ""},
 	{"fixtures/fx.BadQ", "fixtures/fx.BadQ.q", "fixtures/fx.(*BadQ).run", "fixtures/fx.(*BadQ).Write", ""},
 	{"fixtures/fx.GoodQ3", "", "fixtures/fx.(*GoodQ3).loop", "", "fixtures/fx.GoodQ3.limit"},
@@ -350,8 +350,16 @@ func runEngineQ(p *Prog, o *obls) {
 		}
 		// accept-implies-enqueued
 		if qs.enqueue != "" {
-			if enq := p.FuncByKey(qs.enqueue); enq != nil {
+			if enq := p.resolveEnqueue(qs.enqueue); enq != nil {
 				q2Accept(p, o, enq, qs)
+				// ---- Q4: no bypass — the accepting side never writes downstream itself; every packet goes through the queue
+				bw, _ := groupWrites(p, enq)
+				k4 := funcKey(enq) + ":no-bypass"
+				if len(bw) > 0 {
+					o.bad("Q4", k4, p.Pos(enq.Pos()), fmt.Sprintf("the accepting side writes downstream itself at %s: such a packet overtakes the packets of its stream that are still queued (order of acceptance is lost)", p.instrPos(bw[0])))
+				} else {
+					o.ok("Q4", k4, p.Pos(enq.Pos()), "the accepting side performs no downstream write: every packet leaves through the queue's consumer")
+				}
 			} else {
 				o.undecided("Q2", qs.enqueue, "-", "anchor unresolved: enqueue function not found")
 			}
@@ -363,44 +371,97 @@ func runEngineQ(p *Prog, o *obls) {
 	}
 }
 
+// resolveEnqueue: a function key, or "F$RTPWriter" = the per-packet RTP writer closure created in F (robust against
+// the numbering of literals).
+func (p *Prog) resolveEnqueue(key string) *ssa.Function {
+	if strings.HasSuffix(key, "$RTPWriter") {
+		parent := p.FuncByKey(strings.TrimSuffix(key, "$RTPWriter"))
+		cl, _ := p.PktClosures()
+		for _, c := range cl {
+			if c.Kind == RTPWriter && c.Fn.Parent() == parent && parent != nil {
+				return c.Fn
+			}
+		}
+		return nil
+	}
+	return p.FuncByKey(key)
+}
+
 func chainWrites(p *Prog, fn *ssa.Function) []*ssa.Call {
 	var out []*ssa.Call
 	instrsOf(fn, func(in ssa.Instruction) {
-		if c, ok := in.(*ssa.Call); ok && c.Call.IsInvoke() && c.Call.Method.Name() == "Write" && types.Identical(c.Call.Value.Type(), p.rootNamed("RTPWriter")) {
+		if c, ok := in.(*ssa.Call); ok && isChainWrite(p, c) {
 			out = append(out, c)
 		}
 	})
 	return out
 }
 
+func isChainWrite(p *Prog, c *ssa.Call) bool {
+	return c.Call.IsInvoke() && c.Call.Method.Name() == "Write" && types.Identical(c.Call.Value.Type(), p.rootNamed("RTPWriter"))
+}
+
+// groupWrites: the downstream writes of the consumer and of the helpers it delegates to.
+func groupWrites(p *Prog, cons *ssa.Function) (writes []*ssa.Call, group []*ssa.Function) {
+	group = p.calleeGroup(cons)
+	for _, f := range group {
+		writes = append(writes, chainWrites(p, f)...)
+	}
+	return
+}
+
+// reachesIP: backwardReaches that continues from a parameter into the arguments of every caller.
+func (p *Prog) reachesIP(v ssa.Value, target func(ssa.Value) bool, depth int) bool {
+	return p.backwardReaches(v, func(x ssa.Value) bool {
+		if target(x) {
+			return true
+		}
+		if par, ok := x.(*ssa.Parameter); ok && depth > 0 {
+			args, _, closed := p.argsForParam(par)
+			if !closed || len(args) == 0 {
+				return false
+			}
+			for _, a := range args {
+				if !p.reachesIP(a, target, depth-1) {
+					return false
+				}
+			}
+			return true
+		}
+		return false
+	})
+}
+
 func q1LocalSlice(p *Prog, o *obls, cons *ssa.Function, qs queueSpec) {
 	var bad []string
-	writes := chainWrites(p, cons)
+	writes, group := groupWrites(p, cons)
 	if len(writes) == 0 {
 		o.undecided("Q1", qs.typ, p.Pos(cons.Pos()), "anchor unresolved: no downstream write in the consumer")
 		return
 	}
 	for _, w := range writes {
 		// the header/payload written derive from element 0 of a slice
-		fromFront := p.backwardReaches(w.Call.Args[0], func(v ssa.Value) bool {
+		fromFront := p.reachesIP(w.Call.Args[0], func(v ssa.Value) bool {
 			if u, ok := v.(*ssa.UnOp); ok && u.Op == token.MUL {
 				v = u.X
 			}
 			ia, ok := v.(*ssa.IndexAddr)
 			return ok && isConstInt(ia.Index, 0)
-		})
+		}, ipDepth)
 		if !fromFront {
 			bad = append(bad, fmt.Sprintf("the packet written at %s is not element 0 of the queue", p.instrPos(w)))
 		}
 	}
 	cut := false
-	instrsOf(cons, func(in ssa.Instruction) {
-		if sl, ok := in.(*ssa.Slice); ok && sl.Low != nil && isConstInt(sl.Low, 1) && sl.High == nil {
-			if _, isSlice := sl.X.Type().Underlying().(*types.Slice); isSlice {
-				cut = true
+	for _, f := range group {
+		instrsOf(f, func(in ssa.Instruction) {
+			if sl, ok := in.(*ssa.Slice); ok && sl.Low != nil && isConstInt(sl.Low, 1) && sl.High == nil {
+				if _, isSlice := sl.X.Type().Underlying().(*types.Slice); isSlice {
+					cut = true
+				}
 			}
-		}
-	})
+		})
+	}
 	if !cut {
 		bad = append(bad, "the queue is not cut with queue[1:] after taking its first element")
 	}
@@ -411,84 +472,117 @@ func q1LocalSlice(p *Prog, o *obls, cons *ssa.Function, qs queueSpec) {
 	}
 }
 
-// q2Handoff: between two dequeues at most one downstream Write, and exactly one when a writer was found.
+// q2Handoff: between two dequeues at most one downstream Write, and exactly one when a writer was found. The dequeue
+// loop is the innermost loop around a write — in the consumer or in a helper it delegates to; a helper that writes
+// outside any loop of its own counts as an event of the caller's loop.
 func q2Handoff(p *Prog, o *obls, cons *ssa.Function, qs queueSpec) {
-	writes := chainWrites(p, cons)
+	writes, group := groupWrites(p, cons)
 	key := funcKey(cons) + ":handoff"
 	if len(writes) == 0 {
 		o.bad("Q2", key, p.Pos(cons.Pos()), "the consumer never writes a dequeued packet")
 		return
 	}
-	isWrite := func(in ssa.Instruction) bool {
-		for _, w := range writes {
-			if in == ssa.Instruction(w) {
-				return true
-			}
-		}
-		return false
+	inGroup := map[*ssa.Function]bool{}
+	for _, f := range group {
+		inGroup[f] = true
 	}
-	// innermost loop around the write = one dequeue iteration
-	loops := naturalLoops(cons)
+	ctr := p.newIPCounter(func(in ssa.Instruction) bool {
+		c, ok := in.(*ssa.Call)
+		return ok && isChainWrite(p, c)
+	}, func(f *ssa.Function) bool { return inGroup[f] })
 	var bad []string
-	for _, w := range writes {
-		var inner map[*ssa.BasicBlock]bool
-		var hdr *ssa.BasicBlock
-		for h, body := range loops {
-			if body[w.Block()] && (inner == nil || len(body) < len(inner)) {
-				inner, hdr = body, h
-			}
+	nLoops := 0
+	for _, F := range group {
+		loops := naturalLoops(F)
+		type lp struct {
+			hdr  *ssa.BasicBlock
+			body map[*ssa.BasicBlock]bool
 		}
-		if inner == nil {
-			bad = append(bad, "the downstream write is not inside the dequeue loop")
-			continue
-		}
-		for _, s := range hdr.Succs {
-			if !inner[s] {
-				continue
+		var found []lp
+		seenHdr := map[*ssa.BasicBlock]bool{}
+		instrsOf(F, func(in ssa.Instruction) {
+			w := ctr.weight(in)
+			if w.none() {
+				return
 			}
-			before := seededCounts(cons, s, isWrite)
-			for _, pr := range hdr.Preds {
-				if !inner[pr] {
+			if c, ok := in.(*ssa.Call); ok && !isChainWrite(p, c) {
+				if s := ctr.summary(c.Call.StaticCallee()); s != nil && s.hasLoopEvent {
+					return // the dequeue loop is inside the helper
+				}
+			}
+			var inner map[*ssa.BasicBlock]bool
+			var hdr *ssa.BasicBlock
+			for h, body := range loops {
+				if body[in.Block()] && (inner == nil || len(body) < len(inner)) {
+					inner, hdr = body, h
+				}
+			}
+			if inner == nil {
+				if F == cons {
+					bad = append(bad, "the downstream write is not inside the dequeue loop")
+				}
+				return
+			}
+			if !seenHdr[hdr] {
+				seenHdr[hdr] = true
+				found = append(found, lp{hdr, inner})
+			}
+		})
+		for _, l := range found {
+			nLoops++
+			hdr, inner := l.hdr, l.body
+			isEv := func(in ssa.Instruction) bool { return !ctr.weight(in).none() }
+			for _, s := range hdr.Succs {
+				if !inner[s] {
 					continue
 				}
-				m := before[pr.Instrs[len(pr.Instrs)-1]]
-				if m&4 != 0 {
-					bad = append(bad, fmt.Sprintf("one iteration of the dequeue loop can write twice (path ending at %s): a packet is duplicated", p.instrPos(pr.Instrs[len(pr.Instrs)-1])))
-				}
-				if m&1 != 0 {
-					// permitted only when the iteration found no writer for the stream (comma-ok lookup false) or a failed cast
-					last := pr.Instrs[len(pr.Instrs)-1]
-					okSkip := false
-					for _, f := range dominatingFacts(pr) {
-						f = normFact(f)
-						if ex, ok := f.cond.(*ssa.Extract); ok && ex.Index == 1 && !f.truth {
-							okSkip = true
-						}
+				before := p.pathCountsW(F, s, ctr.weight)
+				for _, pr := range hdr.Preds {
+					if !inner[pr] {
+						continue
 					}
-					// the back edge itself may be the failed-lookup edge (if !ok { continue } without a block of its own)
-					if c := ifCond(pr); c != nil {
-						for i, sc := range pr.Succs {
-							if sc == hdr {
-								f := normFact(condFact{c, i == 0})
-								if ex, ok := f.cond.(*ssa.Extract); ok && ex.Index == 1 && !f.truth {
-									okSkip = true
+					last := pr.Instrs[len(pr.Instrs)-1]
+					m := before[last]
+					if m&4 != 0 {
+						bad = append(bad, fmt.Sprintf("one iteration of the dequeue loop can write twice (path ending at %s): a packet is duplicated", p.instrPos(last)))
+					}
+					if m&1 != 0 {
+						// permitted only when the iteration found no writer for the stream (comma-ok lookup false) or a failed cast
+						okSkip := false
+						for _, f := range dominatingFacts(pr) {
+							f = normFact(f)
+							if ex, ok := f.cond.(*ssa.Extract); ok && ex.Index == 1 && !f.truth {
+								okSkip = true
+							}
+						}
+						// the back edge itself may be the failed-lookup edge (if !ok { continue } without a block of its own)
+						if c := ifCond(pr); c != nil {
+							for i, sc := range pr.Succs {
+								if sc == hdr {
+									f := normFact(condFact{c, i == 0})
+									if ex, ok := f.cond.(*ssa.Extract); ok && ex.Index == 1 && !f.truth {
+										okSkip = true
+									}
 								}
 							}
 						}
-					}
-					if !okSkip && pr != hdr {
-						// is there any path with zero writes that does not go through a failed lookup?
-						if !zeroWriteOnlyViaFailedLookup(cons, s, pr, isWrite) {
-							bad = append(bad, fmt.Sprintf("one iteration of the dequeue loop can end (at %s) without writing the dequeued packet although a writer was found: the packet is lost", p.instrPos(last)))
+						if !okSkip && pr != hdr {
+							// is there any path with zero writes that does not go through a failed lookup?
+							if !zeroWriteOnlyViaFailedLookup(F, s, pr, isEv) {
+								bad = append(bad, fmt.Sprintf("one iteration of the dequeue loop can end (at %s) without writing the dequeued packet although a writer was found: the packet is lost", p.instrPos(last)))
+							}
 						}
 					}
 				}
 			}
 		}
 	}
+	if nLoops == 0 && len(bad) == 0 {
+		bad = append(bad, "the downstream write is not inside a dequeue loop")
+	}
 	// the writer must be the one looked up for this packet, not a value carried over from an earlier iteration
 	for _, w := range writes {
-		for h, body := range loops {
+		for h, body := range naturalLoops(w.Parent()) {
 			if !body[w.Block()] {
 				continue
 			}
@@ -502,7 +596,7 @@ func q2Handoff(p *Prog, o *obls, cons *ssa.Function, qs queueSpec) {
 	if len(bad) > 0 {
 		o.bad("Q2", key, p.Pos(cons.Pos()), strings.Join(dedupe(bad), "; "))
 	} else {
-		o.ok("Q2", key, p.Pos(cons.Pos()), fmt.Sprintf("%d write site(s): at most one write per dequeued packet, none skipped except on the logged no-writer branch, writer looked up per packet", len(writes)))
+		o.ok("Q2", key, p.Pos(cons.Pos()), fmt.Sprintf("%d write site(s) in %d dequeue loop(s): at most one write per dequeued packet, none skipped except on the logged no-writer branch, writer looked up per packet", len(writes), nLoops))
 	}
 }
 
@@ -541,7 +635,8 @@ func zeroWriteOnlyViaFailedLookup(fn *ssa.Function, start, end *ssa.BasicBlock, 
 	return !walk(start)
 }
 
-// q2Accept: the pacer's Write returns a nil error only on paths that performed the enqueue.
+// q2Accept: the pacer's Write returns a nil error only on paths that performed the enqueue (itself or through a
+// helper whose nil return implies the enqueue).
 func q2Accept(p *Prog, o *obls, enq *ssa.Function, qs queueSpec) {
 	key := funcKey(enq) + ":accept"
 	isEnq := func(in ssa.Instruction) bool {
@@ -555,8 +650,20 @@ func q2Accept(p *Prog, o *obls, enq *ssa.Function, qs queueSpec) {
 		}
 		return false
 	}
+	top := enq
+	for top.Parent() != nil {
+		top = top.Parent()
+	}
+	ctr := p.newIPCounter(isEnq, func(f *ssa.Function) bool { return f.Pkg == top.Pkg })
+	// select-based enqueue: a return on the branch of the send case has enqueued once
+	ctr.retAdjust = func(fn *ssa.Function, ret *ssa.Return, m countMask) countMask {
+		if m == 1 && selectSendBranch(fn, ret.Block()) {
+			return 2
+		}
+		return m
+	}
 	var bad []string
-	before, _ := pathCounts(enq, isEnq)
+	before := p.pathCountsW(enq, nil, ctr.weight)
 	for _, b := range enq.Blocks {
 		ret, ok := b.Instrs[len(b.Instrs)-1].(*ssa.Return)
 		if !ok || b == enq.Recover {
@@ -566,14 +673,11 @@ func q2Accept(p *Prog, o *obls, enq *ssa.Function, qs queueSpec) {
 		if !isNilConst(p.origin(errV)) {
 			continue
 		}
-		if before[ret] == 2 {
+		m := ctr.retAdjust(enq, ret, before[ret])
+		if m == 2 {
 			continue
 		}
-		// select-based enqueue: the nil return must be on the branch of the send case
-		if selectSendBranch(enq, b) {
-			continue
-		}
-		bad = append(bad, fmt.Sprintf("the return at %s reports success but the packet was enqueued %s times on the way: an accepted packet is never (or twice) delivered", p.instrPos(ret), before[ret]))
+		bad = append(bad, fmt.Sprintf("the return at %s reports success but the packet was enqueued %s times on the way: an accepted packet is never (or twice) delivered", p.instrPos(ret), m))
 	}
 	if len(bad) > 0 {
 		o.bad("Q2", key, p.Pos(enq.Pos()), strings.Join(bad, "; "))
@@ -605,10 +709,11 @@ func selectSendBranch(fn *ssa.Function, b *ssa.BasicBlock) bool {
 	return false
 }
 
-// q3Charge: every downstream write in the pacing loop is dominated by a budget test and a token charge.
+// q3Charge: every downstream write in the pacing loop is dominated by a budget test and a token charge — in the
+// function of the write, or at every call site of the helper that contains it.
 func q3Charge(p *Prog, o *obls, cons *ssa.Function, qs queueSpec) {
 	key := funcKey(cons) + ":charge"
-	writes := chainWrites(p, cons)
+	writes, _ := groupWrites(p, cons)
 	if len(writes) == 0 {
 		o.undecided("Q3", key, p.Pos(cons.Pos()), "anchor unresolved: no downstream write")
 		return
@@ -635,24 +740,25 @@ func q3Charge(p *Prog, o *obls, cons *ssa.Function, qs queueSpec) {
 		}
 		return false
 	}
-	var bad []string
-	for _, w := range writes {
-		charged, tested := false, false
-		instrsOf(cons, func(in ssa.Instruction) {
-			if v, ok := in.(ssa.Value); ok && isLimiterCall(v, "AllowN", "Allow", "ReserveN", "WaitN") && instrDominates(in, w) {
-				// in the same loop iteration: the charge's block is in the innermost loop of the write
-				charged = true
+	chargedAt := func(at ssa.Instruction) bool {
+		ok := false
+		instrsOf(at.Parent(), func(in ssa.Instruction) {
+			if v, isV := in.(ssa.Value); isV && isLimiterCall(v, "AllowN", "Allow", "ReserveN", "WaitN") && instrDominates(in, at) {
+				ok = true
 			}
 		})
+		return ok
+	}
+	testedAt := func(at ssa.Instruction) bool {
 		// the budget must be re-read from the limiter for every packet: the Budget call lies inside the innermost loop
 		// around the write (a value read once before the loop goes stale when the rate is changed concurrently)
 		var inner map[*ssa.BasicBlock]bool
-		for _, body := range naturalLoops(cons) {
-			if body[w.Block()] && (inner == nil || len(body) < len(inner)) {
+		for _, body := range naturalLoops(at.Parent()) {
+			if body[at.Block()] && (inner == nil || len(body) < len(inner)) {
 				inner = body
 			}
 		}
-		for _, f := range dominatingFactsInstr(w) {
+		for _, f := range dominatingFactsInstr(at) {
 			if p.backwardReaches(f.cond, func(v ssa.Value) bool {
 				if !isLimiterCall(v, "Budget", "Tokens", "TokensAt") {
 					return false
@@ -660,9 +766,15 @@ func q3Charge(p *Prog, o *obls, cons *ssa.Function, qs queueSpec) {
 				c := v.(*ssa.Call)
 				return inner == nil || inner[c.Block()]
 			}) {
-				tested = true
+				return true
 			}
 		}
+		return false
+	}
+	var bad []string
+	for _, w := range writes {
+		charged := chargedAt(w) || p.allCallersSatisfy(w.Parent(), func(s ssa.CallInstruction) bool { return chargedAt(s) }, ipDepth)
+		tested := testedAt(w) || p.allCallersSatisfy(w.Parent(), func(s ssa.CallInstruction) bool { return testedAt(s) }, ipDepth)
 		if !tested {
 			bad = append(bad, fmt.Sprintf("the write at %s is not guarded by a test of the limiter's budget read for this packet (inside the per-packet loop): bits can be released against a stale budget", p.instrPos(w)))
 		}
@@ -701,16 +813,25 @@ func runEngineS(p *Prog, o *obls) {
 			continue
 		}
 		var fns []*ssa.Function
+		// every method of the recorder that updates a counter of the exported stats structs
 		for i := 0; i < t.NumMethods(); i++ {
-			if strings.HasPrefix(t.Method(i).Name(), "record") {
-				if f := p.SSA.FuncValue(t.Method(i)); f != nil && f.Blocks != nil {
-					fns = append(fns, f)
+			f := p.SSA.FuncValue(t.Method(i))
+			if f == nil || f.Blocks == nil {
+				continue
+			}
+			has := false
+			instrsOf(f, func(in ssa.Instruction) {
+				if st, ok := in.(*ssa.Store); ok && throughStatsStruct(st.Addr, ss.pkgPath) {
+					has = true
 				}
+			})
+			if has {
+				fns = append(fns, f)
 			}
 		}
 		sort.Slice(fns, func(i, j int) bool { return funcKey(fns[i]) < funcKey(fns[j]) })
 		if len(fns) == 0 {
-			o.undecided("S1", ss.recorder, "-", "anchor unresolved: no record* method")
+			o.undecided("S1", ss.recorder, "-", "anchor unresolved: no method of the recorder updates a stats counter")
 			continue
 		}
 		// callers' guards: a helper called only under an SSRC test inherits it
@@ -724,12 +845,16 @@ func runEngineS(p *Prog, o *obls) {
 					return
 				}
 				n++
-				guarded := false
-				for _, f := range dominatingFactsInstr(st) {
-					if p.backwardReaches(f.cond, func(v ssa.Value) bool { return loadOfField(p, v, ss.ssrc) }) {
-						guarded = true
+				ssrcGuardedAt := func(at ssa.Instruction) bool {
+					for _, f := range dominatingFactsInstr(at) {
+						if p.backwardReaches(f.cond, func(v ssa.Value) bool { return loadOfField(p, v, ss.ssrc) }) {
+							return true
+						}
 					}
+					return false
 				}
+				// a helper inherits the test when every call of it is dominated by one
+				guarded := ssrcGuardedAt(st) || p.allCallersSatisfy(fn, func(s ssa.CallInstruction) bool { return ssrcGuardedAt(s) }, ipDepth)
 				if !guarded {
 					bad = append(bad, fmt.Sprintf("%s is updated at %s without a dominating comparison of the packet's SSRC with the recorder's: traffic of another stream is counted", describeAddr(p, st.Addr), p.instrPos(st)))
 				}
@@ -882,7 +1007,7 @@ func statsFieldPath(addr ssa.Value) string {
 			break
 		}
 		if f := fieldOfAddr(fa); f != nil {
-			parts = append([]string{f.Name()}, parts...)
+			parts = append([]string{cFieldName(f)}, parts...)
 		}
 		addr = fa.X
 	}
